@@ -79,11 +79,12 @@ Definition set_add (n : string) (l : list string) : list string := if mem n l th
 (* which variant of the code *)
 
 Record cfg := mk_cfg {
-  value_push_has_body : bool;        (* apply_provisioning passes the pending value as the body of PATCH /ports/<id>/value *)
+  value_push_has_body : bool;        (* apply_provisioning passes the pending value as the body of PATCH /ports/<id>/value and
+                                        queues it as remote value once sent (as write_value does online) *)
   port_update_keeps_pending : bool;  (* _handle_port_update overlays the pending attributes (and skips a pending value) before
                                         replacing the attribute cache *)
   device_update_keeps_pending : bool (* _handle_device_update overlays the pending attributes instead of popping them from the
-                                        dict it iterates *)
+                                        dict it iterates, and so does fetch_and_update_device *)
 }.
 
 Definition cfg_found : cfg := mk_cfg false false false.    (* the code as found (F5) *)
@@ -273,7 +274,10 @@ Definition fetch_ports (c : cfg) (ports : list (attrs * option val)) (m : master
   let remote := flat_map (fun x => match id_of (fst x) with Some id => [id] | None => [] end) ports in
   set_ports m2 (filter (fun p => negb (mem (mp_id p) local) || mem (mp_id p) remote) (m_ports m2)).
 
-Definition fetch_device (dev : attrs) (m : master) : master := set_dev m dev.
+(* fetch_and_update_device: the answer of GET /device replaces the device attribute cache (pending attributes keep their
+   pending value in the repaired code) *)
+Definition fetch_device (c : cfg) (dev : attrs) (m : master) : master :=
+  set_dev m (if device_update_keeps_pending c then dict_update (prov_attrs (m_dev_prov m) (m_dev m)) dev else dev).
 
 Definition handle (c : cfg) (e : event) (m : master) : master * bool :=
   match e with
@@ -282,7 +286,7 @@ Definition handle (c : cfg) (e : event) (m : master) : master * bool :=
   | EPortAdd a aux => handle_port_add a aux m
   | EPortRemove id => handle_port_remove id m
   | EDeviceUpdate a => handle_device_update c a m
-  | EFullUpdate dev ports => (fetch_ports c ports (fetch_device dev m), true)
+  | EFullUpdate dev ports => (fetch_ports c ports (fetch_device c dev m), true)
   | EUnknown => (m, true)
   end.
 
